@@ -1,4 +1,5 @@
 import Revm.Spec.JournalAbs
+import Revm.Model.TxFeeLegs
 /-! C08 — what "ether is conserved" means.
 
 `bal db s a` is the observable balance of an address (the journal's entry if the account is loaded,
@@ -16,7 +17,7 @@ Ether leaves the sum only through an `AccountDestroyed` entry whose target is th
 itself (`burntEntry`); `burnt s` adds those up over the entries that are still in the journal, so a
 reverted frame un-burns what it burnt. -/
 namespace Revm.Spec.Ether
-open Revm Revm.Model.Journal Revm.Spec.JournalAbs
+open Revm Revm.Model.Journal Revm.Model.TxFeeLegs Revm.Spec.JournalAbs
 
 /-- observable balance of `a` -/
 def bal (db : Db) (s : JState) (a : Addr) : Nat := (absAcct db s a).balance
@@ -144,5 +145,48 @@ def Funded (db : Db) (r : Run) : Op → Prop
 def FundedRun (db : Db) (r : Run) : List Op → Prop
   | [] => True
   | op :: ops => Funded db r op ∧ ∀ r', step db r op = some r' → FundedRun db r' ops
+
+/-- local form of the hypotheses of the history theorem, decidable on the current state: a creation
+is funded, and the beneficiary's credit of a self-destruct fits in 256 bits (implied by Σ < 2^256) -/
+def StepOk (db : Db) (r : Run) : Op → Prop
+  | .create caller _ _ v _ => v ≤ bal db r.js caller
+  | .selfdestruct a t => a ≠ t → bal db r.js t + bal db r.js a < W
+  | _ => True
+
+def StepOkRun (db : Db) (r : Run) : List Op → Prop
+  | [] => True
+  | op :: ops => StepOk db r op ∧ ∀ r', step db r op = some r' → StepOkRun db r' ops
+
+/-! ## fee legs of a transaction (EIP-1559, EIP-4844) over unbounded integers -/
+
+/-- the blob fee that is charged (and burnt): zero before Cancun -/
+def dataFee (spec : Nat) (e : FeeEnv) : Nat := if spec ≥ CANCUN then (calcDataFee e).getD 0 else 0
+
+/-- ether that the fee legs burn per unit of gas: the part of the effective price the beneficiary
+does not get (the base fee from London on, nothing before) -/
+def burntPerGas (spec : Nat) (e : FeeEnv) : Nat := effectiveGasPrice e - coinbaseGasPrice spec e
+
+/-- what validation establishes (`validate_tx_against_state`, `validate_tx`): the caller's balance
+covers `gas_limit * gas_price + value + max blob fee` without 256-bit overflow, the effective price
+is at most the fee cap, the blob gas price at most the blob fee cap; hence the caller covers
+`gas_limit * effective_gas_price + blob fee`. `Validated` keeps only that consequence. -/
+def Validated (db : Db) (s : JState) (spec : Nat) (e : FeeEnv) : Prop :=
+  e.gasLimit * effectiveGasPrice e + dataFee spec e ≤ bal db s e.caller ∧
+  (spec ≥ CANCUN → e.blobGasPrice.isSome)
+
+/-- the gas figures of a finished first frame as the handler sees them: `spent + remaining` is the
+gas limit and the (final, capped) refund does not exceed what was spent (C09 / C13) -/
+def GasOk (e : FeeEnv) (remaining spent refunded : Nat) : Prop :=
+  spent + remaining = e.gasLimit ∧ refunded ≤ spent ∧ e.gasLimit < U64
+
+/-- the amounts of the three legs over unbounded integers -/
+def specDebit (spec : Nat) (e : FeeEnv) : Nat := e.gasLimit * effectiveGasPrice e + dataFee spec e
+def specReimbursement (e : FeeEnv) (remaining refunded : Nat) : Nat := effectiveGasPrice e * (remaining + refunded)
+def specReward (spec : Nat) (e : FeeEnv) (spent refunded : Nat) : Nat := coinbaseGasPrice spec e * (spent - refunded)
+
+/-- what a transaction takes out of the sum of all balances -/
+def specTxBurn (spec : Nat) (e : FeeEnv) (rewards : Bool) (spent refunded burntExec : Nat) : Nat :=
+  burntPerGas spec e * (spent - refunded) + dataFee spec e + burntExec
+    + (if rewards then 0 else specReward spec e spent refunded)
 
 end Revm.Spec.Ether
